@@ -29,8 +29,9 @@ TRUSTED = [
     "FormulaManager constructors and the symbol->term MGSubstituter (same definitions as models/Ctors.v on well-formed nodes)",
     "models/Prenex.v (PrenexNormalizer) is compared with the implementation up to a consistent renaming of the fresh FV-names "
     "(Prenex.canon) and up to the order of quantified variables; inputs without array theory (a Boolean array read makes the walker raise)",
-    "propagate_toplevel is NOT modelled in Coq beyond its final substitute-and-reassert step (models/PropTop.v, for the refutation "
-    "witness): for it this check is the SEARCH oracle only",
+    "models/PropTop.v (propagate_toplevel with do_simplify=False: conjunct scan, DisjointSet with ranking, sigma, substitution, "
+    "re-asserted equalities) takes the node-id order of the equalities' arguments from the implementation (node ids are not part "
+    "of a term) and is compared up to the order of And arguments; inputs without Div/Pow/ToReal/arrays/strings (normalising constructors)",
     "the memoised DAG walk is replaced by structural recursion (licensed by DagWalk_proofs.walk_refines, C20/C14)",
     "tocoq.py (FNode -> Gallina literal); refeval.py (independent evaluator) for the SEARCH oracle only",
 ]
@@ -561,7 +562,10 @@ PRENEX_COQ = ("From PySMT.models Require Import C10Local Prenex.", "nat * term *
               "Definition ok (c : nat * term * term) : bool :=\n"
               "  let '(n, t, o) := c in\n"
               "  match prenex n t with Some r => ac_eqb (canon r) (canon o) && pq_frag t | None => false end.\n")
-PROPTOP_COQ = None
+PROPTOP_COQ = ("From PySMT.models Require Import C10Local PropTop.", "term * list term * term",
+               "Definition ok (c : term * list term * term) : bool :=\n"
+               "  let '(t, order, o) := c in\n"
+               "  match propagate_toplevel order t with Some r => ac_eqb r o | None => false end.\n")
 
 BATCHES = [("nnf", run_nnf), ("aig", run_aig), ("partition", run_partition), ("qelim", run_qelim), ("timesdist", run_timesdist),
            ("prenex", run_prenex), ("proptop", run_proptop)]
